@@ -201,3 +201,21 @@ def min_delta_in(model, X, R):
             hx, hr = layer(hx), layer(hr)
     model.train(was)
     return out.reshape(n, r)
+
+
+class Wrapper(torch.nn.Module):
+    """a custom module around a net (the activations are then nested two levels deep)"""
+    def __init__(self, inner):
+        super().__init__()
+        self.block = torch.nn.ModuleDict({"inner": inner})
+
+    def forward(self, X):
+        return self.block["inner"](X)
+
+
+def nest(model, mode):
+    """The same layer objects arranged differently: mode 1 = two nested Sequentials, mode 2 = custom wrapper module around a nested Sequential."""
+    layers = list(model)
+    k = max(1, len(layers) // 2)
+    nested = torch.nn.Sequential(torch.nn.Sequential(*layers[:k]), torch.nn.Sequential(*layers[k:]))
+    return nested if mode == 1 else Wrapper(nested)
